@@ -9,16 +9,21 @@ import (
 // Registry maps property id to its check.
 var Registry = map[string]func(p *load.Prog, r *oblig.Run){
 	"C01": C01,
+	"C02": C02,
 	"C03": C03,
 	"C04": C04,
 	"C06": C06,
 	"C07": C07,
 	"C08": C08,
 	"C09": C09,
+	"C10": C10,
+	"C12": C12,
+	"C20": C20,
 	"C11": C11,
 	"C13": C13,
 	"C14": C14,
 	"C15": C15,
+	"C16": C16,
 	"C18": C18,
 	"C19": C19,
 }
